@@ -74,6 +74,9 @@ pub enum Job {
     /// types that carry the same type name (same identifier in sibling blocks of one function)
     /// and list their operators in different order
     SameNameFactory(usize),
+    /// `eval_str` with the float width f32 (0) / f64 (1) on texts whose value depends on the
+    /// width, starting with text `rot`; also FlatEx::<f32> / FlatEx::<f64> on the same texts
+    EvalStr(u8, usize),
 }
 
 fn same_name_factory_job(which: usize) -> Result<(f64, f64, f64), String> {
@@ -344,6 +347,26 @@ pub fn run_job(job: &Job, shared: &Shared, shared_text: &'static str, sharedw: &
             }
             Ok(format!("{job:?}=ok"))
         }
+        Job::EvalStr(width, rot) => {
+            let texts = ["1/3", "0.1+0.2", "sin(1)", "2^0.5*3", "1+2", "1/3+x"];
+            for step in 0..texts.len() {
+                let i = (rot + step) % texts.len();
+                let text = texts[i];
+                let (got, want): (String, String) = if *width == 0 {
+                    let want: f32 = [1f32 / 3f32, 0.1f32 + 0.2f32, 1f32.sin(), 2f32.powf(0.5) * 3f32, 3f32, 1f32 / 3f32 + 0.25][i];
+                    let got: Result<f32, String> = if i == 5 { FlatEx::<f32>::parse(text).and_then(|e| e.eval(&[0.25])).map_err(|e| e.msg().to_string()) } else { exmex::eval_str::<f32>(text).map_err(|e| e.msg().to_string()) };
+                    (format!("{:?}", got.map(f32::to_bits)), format!("{:?}", Ok::<u32, String>(want.to_bits())))
+                } else {
+                    let want: f64 = [1f64 / 3f64, 0.1f64 + 0.2f64, 1f64.sin(), 2f64.powf(0.5) * 3f64, 3f64, 1f64 / 3f64 + 0.25][i];
+                    let got: Result<f64, String> = if i == 5 { FlatEx::<f64>::parse(text).and_then(|e| e.eval(&[0.25])).map_err(|e| e.msg().to_string()) } else { exmex::eval_str::<f64>(text).map_err(|e| e.msg().to_string()) };
+                    (format!("{:?}", got.map(f64::to_bits)), format!("{:?}", Ok::<u64, String>(want.to_bits())))
+                };
+                if got != want {
+                    return Err(format!("{} of {text:?} over {} gives the bits {got} instead of {want}", if i == 5 { "FlatEx::parse + eval" } else { "eval_str" }, if *width == 0 { "f32" } else { "f64" }));
+                }
+            }
+            Ok(format!("{job:?}=ok"))
+        }
         Job::SameNameFactory(w) => {
             let got = same_name_factory_job(*w)?;
             if got != (7.0, 12.0, -1.0) {
@@ -387,6 +410,7 @@ pub fn bodies() -> Vec<Body> {
         Body { name: "B2-value-type-two-integer-widths", shared_text: TEXTS[3], shared_deep: false, threads: vec![vec![ParseVal(2), ParseVal64(0)], vec![ParseVal64(1), ParseVal(2)]] },
         Body { name: "B2-equally-named-operator-factories", shared_text: TEXTS[3], shared_deep: false, threads: vec![vec![SameNameFactory(0), SameNameFactory(1)], vec![SameNameFactory(1), SameNameFactory(0)]] },
         Body { name: "B2-index-aligned-long-levels-of-two-factories", shared_text: TEXTS[3], shared_deep: false, threads: vec![vec![ParseEval(5, 0, true, 0), ParseEval(6, 1, true, 1)], vec![ParseEval(6, 1, true, 2), ParseEval(5, 0, true, 3)]] },
+        Body { name: "B2-eval_str-two-float-widths", shared_text: TEXTS[3], shared_deep: false, threads: vec![vec![EvalStr(0, 0), EvalStr(1, 2)], vec![EvalStr(1, 0), EvalStr(0, 3)]] },
         Body { name: "B2-six-literal-matchers", shared_text: TEXTS[3], shared_deep: false, threads: vec![vec![Matchers(0)], vec![Matchers(3)]] },
         Body { name: "B3-convert-clone-while-evaluating", shared_text: TEXTS[1], shared_deep: false, threads: vec![vec![CloneConvert(0)], vec![EvalShared(1), EvalShared(2)]] },
         Body { name: "B4-uncompiled-shared-evalvec-and-compiled-clones", shared_text: TEXTS[3], shared_deep: false, threads: vec![vec![EvalVecW(0), CompileCloneW(1)], vec![CompileCloneW(2), EvalVecW(3)]] },
@@ -711,7 +735,7 @@ fn fresh_process_replays(bi: usize, rep: &mut Report) {
 
 pub fn run(tier: Tier) -> i32 {
     let mut rep = Report::new("C20", tier);
-    rep.rule = "schedules: real exmex code on shuttle threads under a preemption-bounded DFS scheduler (scheduling point = every call-back into the harness data type / operator factory / literal matcher), all schedules with <= b preemptions, b iterated 0,1,2(,3); sequential histories: two operator tables over the same data type with equally many operators in different slots and a prefix-related operator pair (`*`, `**`); all call sequences up to the length bound over 23 jobs (index-aligned levels of 18 operators read by two factories; two equally named operator factory types; value type over 32- and 64-bit integers; six pattern-based literal matchers in rotation) (incl. two shared expressions of 2050 / 2300 operands) in one process; observations must equal the schedule-independent reference; distinct = schedules / histories; non-trivial = schedule with at least one preemption".into();
+    rep.rule = "schedules: real exmex code on shuttle threads under a preemption-bounded DFS scheduler (scheduling point = every call-back into the harness data type / operator factory / literal matcher), all schedules with <= b preemptions, b iterated 0,1,2(,3); sequential histories: two operator tables over the same data type with equally many operators in different slots and a prefix-related operator pair (`*`, `**`); all call sequences up to the length bound over 25 jobs (and one step longer over 14 of them; eval_str over two float widths; index-aligned levels of 18 operators read by two factories; two equally named operator factory types; value type over 32- and 64-bit integers; six pattern-based literal matchers in rotation) (incl. two shared expressions of 2050 / 2300 operands) in one process; observations must equal the schedule-independent reference; distinct = schedules / histories; non-trivial = schedule with at least one preemption".into();
     rep.assumptions = vec![
         "code between two call-backs runs atomically; lazy_static's Once is trusted (who initialises first is enumerated)".into(),
         "Send + Sync of FlatEx / DeepEx is asserted at compile time (harness and /verif/probe)".into(),
@@ -787,10 +811,16 @@ pub fn run(tier: Tier) -> i32 {
     fresh_process_replays(2, &mut rep);
     fresh_process_replays(4, &mut rep);
     fresh_process_replays(5, &mut rep);
+    fresh_process_replays(7, &mut rep);
     // sequential histories
     use Job::*;
-    let jobs = vec![EvalShared(0), EvalVecShared(1), ParseEval(0, 0, false, 0), ParseEval(0, 1, false, 1), ParseEval(4, 0, true, 2), ParseEval(4, 1, true, 3), ParseEval(1, 1, false, 0), ParseEval(2, 0, true, 1), CloneConvert(2), EvalVecW(0), CompileCloneW(1), ParseF64(0), ParseVal(0), ParseVal(2), ParseVal64(0), Matchers(0), Matchers(4), SameNameFactory(0), SameNameFactory(1), ParseEval(5, 0, true, 0), ParseEval(6, 1, true, 1), EvalBig(0, 0), EvalBig(1, 1)];
-    let m = Seq { jobs: Arc::new(jobs), max_len: if tier.thorough() { 5 } else { 4 } };
-    explore(m, &mut rep, "c20", "sequential call histories over 23 jobs (two factories with index-aligned levels of 18 operators; two equally named operator factory types; value type over 32- and 64-bit integers; six pattern-based literal matchers in rotation)");
+    // all jobs up to a shorter length, the cheap core (no very large expressions) one step longer
+    let jobs = vec![EvalShared(0), EvalVecShared(1), ParseEval(0, 0, false, 0), ParseEval(0, 1, false, 1), ParseEval(4, 0, true, 2), ParseEval(4, 1, true, 3), ParseEval(1, 1, false, 0), ParseEval(2, 0, true, 1), CloneConvert(2), EvalVecW(0), CompileCloneW(1), ParseF64(0), ParseVal(0), ParseVal(2), ParseVal64(0), Matchers(0), Matchers(4), SameNameFactory(0), SameNameFactory(1), ParseEval(5, 0, true, 0), ParseEval(6, 1, true, 1), EvalStr(0, 0), EvalStr(1, 0), EvalBig(0, 0), EvalBig(1, 1)];
+    let core = vec![EvalVecShared(1), ParseEval(0, 0, false, 0), ParseEval(4, 1, true, 3), ParseEval(2, 0, true, 1), CloneConvert(2), CompileCloneW(1), ParseF64(0), ParseVal(2), ParseVal64(0), Matchers(4), SameNameFactory(0), SameNameFactory(1), EvalStr(0, 0), EvalStr(1, 0)];
+    let (l_all, l_core) = if tier.thorough() { (4, 5) } else { (3, 4) };
+    let m = Seq { jobs: Arc::new(jobs), max_len: l_all };
+    explore(m, &mut rep, "c20", "sequential call histories over 25 jobs (two factories with index-aligned levels of 18 operators; two equally named operator factory types; value type over 32- and 64-bit integers; eval_str over f32 and f64; six pattern-based literal matchers in rotation)");
+    let m = Seq { jobs: Arc::new(core), max_len: l_core };
+    explore(m, &mut rep, "c20", "sequential call histories over the 14 cheapest of these jobs, one step longer");
     rep.finish()
 }
